@@ -239,7 +239,7 @@ SPAN_T = SPAN_Q + (5e-7, 1 + 5e-7, 1 + 2e-6, 1.09, 1.11, 33.333)
 RES_T = RES_Q + tuple(s * v for v in (0.01, 1000.0, 1 / 7) for s in (1, -1))
 ANCHOR_T = ANCHOR_Q + (("xy", 0.0, 0.5), ("xy", 0.999, 1e-9), 1e-7)
 TOL_T = TOL_Q + (1e-3, 0.3)
-SEC_T = SEC_Q + ((3.0, 1.0, 10.0), (-1e6 + 0.4, 0.005, 0.25), (2.996, 1.0101, -1.0))
+SEC_T = SEC_Q + ((2.996, 1.0101, -1.0),)
 
 
 def _axis(L, S, p):
@@ -297,7 +297,7 @@ SEC_W = ((-7.5, 2.5), (1000.3, 100.5), (0.2, 0.99))
 def gen_bbox_shape(tier):
     t = tier == "thorough"
     SH = SHAPES_T if t else SHAPES_Q
-    ANC, TOL = (ANCHOR_T, TOL_T) if t else (ANCHOR_Q, (0.0, 0.01, 0.1))
+    ANC, TOL = (ANCHOR_T, TOL_T) if t else (ANCHOR_Q, (0.0, 0.01))
     return itertools.product(("x", "y"), LEFT_W, SPAN_W, UNIT_W, range(len(SEC_W)), SH, ANC, TIGHT, TOL)
 
 
@@ -330,7 +330,7 @@ NS_T = NS_Q + (3, 7, 4096)
 def gen_bbox_int(tier):
     t = tier == "thorough"
     ANC, TOL = (ANCHOR_T, TOL_T) if t else (ANCHOR_Q, TOL_Q)
-    UN = UNIT_W if t else (1.0, 0.1)
+    UN = UNIT_W if t else (0.1,)
     return itertools.product(LEFT_I[:4], SPAN_I, LEFT_I[1:], SPAN_I, UN, NS_T if t else NS_Q, ANC, TIGHT, TOL)
 
 
@@ -442,12 +442,12 @@ def _vbox(pts):
 
 
 KINDS = ("box", "tri", "diamond", "multi", "line")
-POLY_REQ = (("xy", 10.0, -10.0), ("xy", 0.1, 0.1), ("xy", -1 / 3, 30.0), ("s", 0.25), ("shape", (3, 5)),
-            ("shape", (7, 2)), ("shape", 10))
+POLY_REQ = (("xy", 10.0, -10.0), ("xy", 0.1, 0.1), ("xy", -1 / 3, 30.0), ("s", 0.25), ("xy", 30.0, -10.0),
+            ("shape", (3, 5)), ("shape", (7, 2)), ("shape", 10))
 POLY_L = (0.2, -7.5, 2.996, 1000.3, 1e7 + 0.3)
 POLY_S = (0.005, 0.995, 1.0, 1.0101, 7.0, 100.5)
-# deprecated align= (CRS units on both axes; must be below the pixel size): fraction of the pixel
-ALIGN_Q = (None, 0.0, 0.5, 0.3)
+# deprecated align= is given in CRS units (below the pixel size); the case holds pixel fractions
+ALIGN_Q = ((0.0, 0.0), (0.5, 0.5), (0.3, 0.0), (0.25, 0.9))
 
 
 def gen_poly(tier):
@@ -458,7 +458,7 @@ def gen_poly(tier):
         yield (kind, req, Lx, Sx, Ly, Sy, ("anchor", aenc), tight, tol)
     # deprecated align=
     for kind, req, Lx, Sx, al, tight in itertools.product(
-            KINDS, POLY_REQ[:4], POLY_L, POLY_S, ((0.0, 0.0), (0.5, 0.5), (0.3, 0.0), (0.25, 0.9)), TIGHT):
+            KINDS, POLY_REQ[:5], POLY_L, POLY_S, ALIGN_Q, TIGHT):
         yield (kind, req, Lx, Sx, 3.004, 2.5, ("align", al), tight, 0.01)
 
 
